@@ -51,6 +51,16 @@ var funcMap = map[string]string{
 	"runtime.GOMAXPROCS": "GOMAXPROCS", // worker pool sizes must not depend on the machine: a per-run knob
 }
 
+// package-level functions that create OS resources (file descriptors, mappings): the simulation's versions
+// register what they create, so that the resources of killed incarnations can be released when the run is over
+var resMap = map[string]string{
+	"os.OpenFile":                 "OpenFile",
+	"os.Open":                     "Open",
+	"os.Create":                   "Create",
+	"golang.org/x/sys/unix.Mmap":   "Mmap",
+	"golang.org/x/sys/unix.Munmap": "Munmap",
+}
+
 var tokCounter int
 
 type rw struct {
@@ -145,7 +155,7 @@ func main() {
 			if !r.changed {
 				continue
 			}
-			for _, ip := range []string{"runtime", "time", "sync"} {
+			for _, ip := range []string{"runtime", "time", "sync", "os", "golang.org/x/sys/unix"} {
 				if !astutil.UsesImport(f, ip) {
 					astutil.DeleteImport(p.Fset, f, ip)
 				}
@@ -336,6 +346,14 @@ func (r *rw) node(root ast.Node) ast.Node {
 			}
 		case *ast.SelectorExpr:
 			// method value of a lock operation (`return mu.Unlock`): wrap the simrt call in a closure
+			if fn, ok := info.Uses[n.Sel].(*types.Func); ok {
+				if target, ok := resMap[fn.FullName()]; ok {
+					c.Replace(sel(target))
+					r.stats[target]++
+					r.changed = true
+					return false
+				}
+			}
 			if call, isCall := c.Parent().(*ast.CallExpr); isCall && call.Fun == n {
 				return true
 			}
